@@ -696,7 +696,8 @@ fn gen_api(rng: &mut Rng) -> Vec<AOp>
 		}
 		ops.push(op);
 	}
-	ops.push(AOp::Close);
+	// half of the programs end with the region still open: its accessors (base, cursor, length, remaining) are compared
+	if rng.chance(1, 2) {ops.push(AOp::Close);}
 	ops
 }
 
